@@ -127,6 +127,10 @@ TABLE.update({
     "c06_signal_write_not_reader.diff": ("contracts.c06", "_place_entity_prop_write", "recipe; no bundle"),
     "c06_inline_for_any_property.diff": ("contracts.c06", "_place_entity_prop_write", "recipe; no bundle"),
     "c06_bundle_condition_constant_dropped.diff": ("contracts.c06", "_place_entity_prop_write", "enable; bundle condition"),
+    "c01_projection_adds_one.diff": ("contracts.c01b", "_lower_projection_from_signal", None),
+    "c01_projection_loses_declared_flag.diff": ("contracts.c01b", "_lower_projection_from_signal", None),
+    "c13_projection_target_not_registered.diff": ("contracts.c01b", "_lower_projection_from_signal", None),
+    "c01_projection_int_as_signal.diff": ("contracts.c01b", "lower_projection_expr", None),
     "c08_preserved_shares_network_zero.diff": ("contracts.c12", "_restore_preserved_connection", None),
     "c08_preserved_routing_failure_ignored.diff": ("contracts.c12", "_restore_preserved_connection", None),
     "c08_preserved_span_doubled.diff": ("contracts.c12", "_restore_preserved_connection", None),
